@@ -5047,9 +5047,11 @@ class ParseCtx:
             self.exception_handlers.update({x: try_node.get_handler() for x in catch_handles})
             
             try_node.set_body(self._parse_stmt_seq(body_block_stmts))
-            try_node.set_handler(self._parse_stmt_seq(catch_block_stmts))
-            
+
+            # the catch block is not covered by its own try: errors raised in it go to the enclosing handlers
             self.exception_handlers = prior_error_reasons
+
+            try_node.set_handler(self._parse_stmt_seq(catch_block_stmts))
 
             return try_node
         elif stmt.data == "foreach_stmt":
